@@ -16,7 +16,8 @@ from cklgen import values as gv
 RULE = ("random acyclic graphs of <= 5 user modules in a scratch directory on the module path (public and underscore "
         "definitions, functions, state, colliding names, requires between modules in every form), plus cyclic graphs; "
         "importer programs of 2..6 requires using `require m`, `as`, `import [a, b as c]` (incl. underscore and missing "
-        "names), `unqualified`, string and variable module specs, repeated and from inside functions; a case is one "
+        "names), `unqualified`, string and variable module specs, repeated and from inside functions, with members "
+        "planted on module objects and module variables rebound by module code between the requires; a case is one "
         "(module graph, importer program); non-trivial = >= 2 requires touching a module that is already cached or "
         "nested; distinct by module sources + program text")
 ASSUMPTIONS = [
@@ -106,7 +107,8 @@ def module_source(m):
              "def _seen_at_load = do secret_of_importer catch all 'blind' end;",
              "def %s_probe() do secret_of_importer catch all 'blind' end;" % m.name,
              "def %s_probe_load() _seen_at_load;" % m.name,
-             "def _counter = 0;", "def %s_inc() do _counter += 1; _counter end;" % m.name]
+             "def _counter = 0;", "def %s_inc() do _counter += 1; _counter end;" % m.name,
+             "def %s_count = 0;" % m.name, "def %s_bump() do %s_count += 1; %s_count end;" % (m.name, m.name, m.name)]
     for it in m.items:
         if it[0] == "def":
             lines.append("def %s = %d;" % (it[1], it[2]))
@@ -154,6 +156,8 @@ def compute_exports(mods):
         t["%s_probe_load" % name] = ("fn", "blind")
         t["_counter"] = ("val", 0)
         t["%s_inc" % name] = ("inc", name)
+        t["%s_count" % name] = ("live", name)      # public variable the module itself rebinds (read only right after a require)
+        t["%s_bump" % name] = ("bump", name)
         for it in m.items:
             if it[0] == "def":
                 t[it[1]] = ("val", it[2])
@@ -189,6 +193,17 @@ def module_object_members(ex):
 # importer programs
 # ---------------------------------------------------------------------------
 
+class RecDict(dict):
+    """records which names a require (re)bound"""
+    def __init__(self, *a):
+        super().__init__(*a)
+        self.assigned = []
+
+    def __setitem__(self, k, v):
+        self.assigned.append(k)
+        super().__setitem__(k, v)
+
+
 def gen_importer(r, mods, exports):
     """-> (source, expected log entries as (tag, rendered text))"""
     nreq = r.randint(2, 6)
@@ -197,10 +212,12 @@ def gen_importer(r, mods, exports):
     for i in range(nsnap):
         lines.append("def snap%d = NULL" % i)
     expected = []
-    table = {}
+    table = RecDict()
     loaded = set()
     loadlog = []
     counters = {}
+    bumps = {}
+    planted = {}
     lines.append("snap0 = set(ls())")
     for i in range(nreq):
         target = r.choice(mods)
@@ -220,12 +237,32 @@ def gen_importer(r, mods, exports):
             lines.append(req_source(item))
             if item[2] == "var":
                 table["spec_%s" % target.name] = ("val", "'%s'" % target.name)
+            del table.assigned[:]
             apply_require(table, item, lambda n: exports[n])
+            for k_ in table.assigned:
+                planted.pop(k_, None)       # whatever object the name held before, it now holds another one
         load_order(mods, target.name, loaded, loadlog)
         lines.append("snap%d = set(ls())" % (i + 1))
         new = sorted(k for k in table if k not in before)
         lines.append("log('new%d', snap%d - snap%d)" % (i, i + 1, i))
         expected.append(("new%d" % i, set_text(new)))
+        if not inside_fn and item[2] in ("plain", "string", "string-ext", "var", "as"):
+            # the object this require bound is a new one showing the module as it is now: members another importer
+            # planted on an earlier object are not in it, a variable the module rebound since has its current value
+            k = item[3] if item[2] == "as" else target.name
+            tn = target.name
+            planted[k] = []
+            lines.append("log('count%d.%s', %s->%s_count)" % (i, k, k, tn))
+            expected.append(("count%d.%s" % (i, k), str(bumps.get(tn, 0))))
+            lines.append("log('fresh-members%d.%s', set(ls(%s)))" % (i, k, k))
+            expected.append(("fresh-members%d.%s" % (i, k), set_text(module_object_members(exports[tn]))))
+            if r.random() < 0.5:
+                bumps[tn] = bumps.get(tn, 0) + 1
+                lines.append("log('bump%d.%s', %s->%s_bump())" % (i, k, k, tn))
+                expected.append(("bump%d.%s" % (i, k), str(bumps[tn])))
+            if r.random() < 0.4:
+                lines.append("%s->planted_%d = %d" % (k, i, i))
+                planted[k].append("planted_%d" % i)
     # read everything that is bound
     for k, v in sorted(table.items()):
         if v[0] == "val":
@@ -241,7 +278,7 @@ def gen_importer(r, mods, exports):
         elif v[0] == "mod":
             tname = v[1]
             lines.append("log('members.%s', set(ls(%s)))" % (k, k))
-            expected.append(("members." + k, set_text(module_object_members(exports[tname]))))
+            expected.append(("members." + k, set_text(module_object_members(exports[tname]) + planted.get(k, []))))
             counters[tname] = counters.get(tname, 0) + 1
             lines.append("log('modinc.%s', %s->%s_inc())" % (k, k, tname))
             expected.append(("modinc." + k, str(counters[tname])))
